@@ -228,8 +228,8 @@ def schema_space(tier):
     """list of (label, schema spec, sizes, deviation bound)"""
     out = []
     quick = tier == "quick"
-    sizes_small = [0, 1, 2] if quick else [0, 1, 2, 3]
-    d_series = 1 if quick else 2
+    sizes_small = [0, 1, 2, 3]
+    d_series = 2 if quick else 3
     for dt, alphabet in CHAIN_CHECKS.items():
         # chains of length 0, 1 with every flag combination, as SeriesSchema / Column / Index
         for chain in [()] + [(c,) for c in alphabet]:
@@ -256,7 +256,7 @@ def schema_space(tier):
                 if flags and chain:
                     continue
                 spec = dict(_comp(dt, chain, **flags), kind="series", index=None)
-                out.append((f"series:{dt}", spec, [2] if quick else [1, 3], 1))
+                out.append((f"series:{dt}", spec, [2] if quick else [1, 3], 1 if quick else 2))
     # frames
     cols3 = [S.comp(name="a", dtype="int64", checks=[{"k": "ge", "a": [2]}]), S.comp(name="b", dtype="str", checks=[{"k": "str_length", "a": [1, 2]}]),
              S.comp(name="c", dtype="float64", checks=[{"k": "in_range", "a": [1.5, 3.5]}])]
@@ -278,7 +278,7 @@ def schema_space(tier):
         "elem_custom": S.frame(cols=[S.comp(name="a", dtype="int64", checks=[{"k": "custom_gt0_elem", "a": []}, {"k": "le", "a": [3]}])]),
     }
     for name, spec in frames.items():
-        out.append((f"frame:{name}", spec, [0, 1, 2] if quick else [0, 1, 2, 3], 1))
+        out.append((f"frame:{name}", spec, [0, 1, 2] if quick else [0, 1, 2, 3], 1 if quick else 2))
     # stand-alone multiindex
     out.append(("multiindex", {"kind": "multiindex", "levels": frames["multiindex"]["index"]["levels"], "strict": False, "ordered": True,
                                 "unique": None, "coerce": False}, [1, 2], 1))
@@ -399,14 +399,16 @@ def _short(val):
 
 def plan(tier, seed):
     space = schema_space(tier)
-    cases = [{"label": lab, "spec": spec, "sizes": sizes, "bound": d} for lab, spec, sizes, d in space]
+    cases = [{"label": lab, "spec": spec, "sizes": [sz], "bound": d, "max_runs": 6000 if tier == "quick" else 60000}
+             for lab, spec, sizes, d in space for sz in sizes]
     return {"cases": cases, "exhaustive": True,
-            "bounds": {"deviations": "1 (quick) / 2 for Series-level schemas (thorough)", "sizes": "0..2 quick, 0..3 thorough",
+            "bounds": {"deviations": "Series/Index/Column-level schemas: 2 (quick) / 3 (thorough); DataFrame-level and the 19 further dtypes: 1 / 2; a schema whose exploration reaches "
+                                     "max_runs executions is reported in counters.capped_schemas (then not exhaustive for that schema)", "sizes": "0..3 (frames 0..2 quick)",
                        "menus": "ints: shrink target, +-1, +2, bounds, bounds+-1 (or +-1000 when unbounded); floats: 0, +-1, .5, 1.5, +-2, 2.5, 3.5, +-1000, "
                                 "bounds, bounds+-0.5, +-1, nan if allowed; strings: 3 shortest lengths over the first 3 characters; booleans: both",
                        "schemas": "3 main dtypes x check chains of length <=2 (both orders) x {nullable, unique} x {SeriesSchema, Column, Index}; 19 further dtypes; "
                                   "12 DataFrameSchemas (index, MultiIndex, regex, joint unique, frame-level check/dtype, coerce, optional column); MultiIndex"},
-            "rule": "one case = one schema; executions = scripted generation runs (all answer sequences within the deviation bound); states = distinct examples "
+            "rule": "one case = one (schema, size); executions = scripted generation runs (all answer sequences within the deviation bound); states = distinct examples "
                     "produced; non-trivial = schema for which >= 2 distinct examples were produced and judged"}
 
 
